@@ -343,6 +343,9 @@ func (c *Client) Connect() error {
 
 // Register sends a REGISTER packet to the MQTT-SN gateway.
 func (c *Client) Register(topic string) error {
+	if topic == "" {
+		return errors.New("cannot register an empty topic")
+	}
 	msgID, _ := c.msgID.Next()
 	transaction := newRegisterTransaction(c, msgID, topic)
 	register := pkts1.NewRegister(0, topic)
@@ -382,6 +385,9 @@ func (c *Client) subscribe(topicName string, topicIDType uint8, topicID uint16, 
 // long, it's treated as a short topic. The received packets are passed to the
 // provided callback.
 func (c *Client) Subscribe(topic string, qos uint8, callback MessageHandlerFunc) error {
+	if topic == "" {
+		return errors.New("cannot subscribe to an empty topic")
+	}
 	if pkts.IsShortTopic(topic) {
 		return c.subscribe("", pkts1.TIT_SHORT, pkts.EncodeShortTopic(topic), qos, callback)
 	} else {
@@ -416,6 +422,9 @@ func (c *Client) unsubscribe(topicName string, topicIDType uint8, topicID uint16
 // Unsubscribe unsubscribes from a topic. If the topic is 2 characters long,
 // it's treated as a short topic.
 func (c *Client) Unsubscribe(topic string) error {
+	if topic == "" {
+		return errors.New("cannot unsubscribe from an empty topic")
+	}
 	if pkts.IsShortTopic(topic) {
 		return c.unsubscribe("", pkts1.TIT_SHORT, pkts.EncodeShortTopic(topic))
 	} else {
